@@ -22,8 +22,25 @@ class Shape:
         self.meta = meta or {}
 
 
+# grid variants: the same portfolio shape on another kind of grid (thorough sweeps).  gridv = (freq, unit, tz, start) replaces
+# the arguments of every grid() call made while a portfolio is built (build_portfolio(..., gridv=...)).
+GRID_VARIANTS = {
+    'quarter_min': ('15min', 'min', None, '2021-01-04'),
+    'day_d_cet_dst': ('d', 'd', 'CET', '2021-03-27'),          # 24 h, 23 h, 24 h, ... days
+    'day_h_useast_fall': ('d', 'h', 'US/Eastern', '2021-11-06'),   # 24 h, 25 h, 24 h, ...
+    'month_d': ('MS', 'd', None, '2021-01-01'),                # 31, 28, 31, 30 ... days
+    'hour_cet_dst': ('h', 'h', 'CET', '2021-03-28'),           # local 02:00 does not exist
+    'hour_d_utc': ('h', 'd', 'UTC', '2021-01-04'),
+}
+_OVERRIDE = [None]
+
+
 def grid(T, freq='h', unit='h', tz=None, start=T0):
     eao = lift.import_eao()
+    if _OVERRIDE[0] is not None and not isinstance(freq, (tuple, list)):
+        f, u, z, s_ = GRID_VARIANTS[_OVERRIDE[0]]
+        end = pd.date_range(pd.Timestamp(s_), periods=T + 1, freq=f, tz=z)[-1].tz_localize(None)    # wall clock of an existing instant
+        return eao.assets.Timegrid(pd.Timestamp(s_).to_pydatetime(), end.to_pydatetime(), freq=f, main_time_unit=u, timezone=z)
     if isinstance(freq, (tuple, list)):
         # explicit grid: (freq, start, end, tz) -- irregular steps (DST days, months); T is ignored
         f, s_, e_, tz_ = freq
@@ -47,8 +64,23 @@ def window(tg, w):
         return None, None
     k0, k1 = w
     step = tg.timepoints[1] - tg.timepoints[0] if tg.T > 1 else (tg.end - tg.timepoints[0])
-    f = lambda k: None if k is None else (tg.timepoints[0] + k * step)
+
+    def f(k):
+        if k is None:
+            return None
+        if 0 <= k < tg.T:
+            return tg.timepoints[k]          # a grid point also on irregular grids (DST days, months)
+        if k == tg.T:
+            return _grid_end(tg)
+        return tg.timepoints[0] + k * step if k < 0 else _grid_end(tg) + (k - tg.T) * step
     return f(k0), f(k1)
+
+
+def _grid_end(tg):
+    e = pd.Timestamp(tg.end)
+    if e.tzinfo is None and tg.tz is not None:
+        e = e.tz_localize(tg.tz)
+    return e
 
 
 def nodes(*names):
@@ -441,7 +473,9 @@ def pf_caps_dict(D, T=4, wacc=False, tz=None):
     tg = grid(T, 'h', 'h', tz)
     (nA,) = nodes('A')
     w = D('wacc', lo=0) if wacc else 0
-    hh = lambda k: T0 + dt.timedelta(hours=k)
+    def hh(k):      # wall clock of the k-th grid point (beyond the grid: extrapolated), naive as a user would write it
+        p = window(tg, (k, k))[0]
+        return pd.Timestamp(p).tz_localize(None).to_pydatetime()
     ct = eao.assets.Contract(name='ct', nodes=nA, price='r', wacc=w,
                              min_cap={'start': [hh(0), hh(1)], 'end': [hh(1), hh(9)], 'values': [D('cmin0', hi=0), D('cmin1', hi=0)]},
                              max_cap={'start': [hh(0), hh(2)], 'values': [D('cmax0', lo=0), D('cmax1', lo=0)]},
@@ -483,5 +517,9 @@ PORTFOLIOS = dict(names=pf_names, caps_dict=pf_caps_dict, mixed_wacc=pf_mixed_wa
                   orderbook=pf_orderbook, scaled=pf_scaled, structured=pf_structured, ext_transport=pf_ext_transport)
 
 
-def build_portfolio(D, shape, **kw):
-    return PORTFOLIOS[shape](D, **kw)
+def build_portfolio(D, shape, gridv=None, **kw):
+    _OVERRIDE[0] = gridv
+    try:
+        return PORTFOLIOS[shape](D, **kw)
+    finally:
+        _OVERRIDE[0] = None
